@@ -210,9 +210,16 @@ func judgeRun(s *stats, k *kase, origin *sim.Region, op *operator.Operator, e *e
 		}
 		w := map[string]interface{}{"case": k, "origin": origin.Describe(), "steps": ss, "failed_at_step": at,
 			"trace": append([]string(nil), traceLog...), "operator": op.String()}
-		s.report(&finding{Key: key + ":" + mode, What: what + " [api=" + k.Req.API + " mode=" + mode + " origin=" + k.Origin + "]", Case: k, Size: size, Witness: w})
+		fam := ""
+		if k.Family != "" {
+			fam = " family=" + k.Family
+		}
+		s.report(&finding{Key: key + ":" + mode + familySuffix(k), What: what + " [api=" + k.Req.API + " mode=" + mode + fam + " origin=" + k.Origin + "]", Case: k, Size: size, Witness: w})
 	}
 	s.count("operators_judged", 1)
+	if k.Family != "" {
+		s.count("operators_family_"+k.Family, 1)
+	}
 	s.count("operators_"+mode, 1)
 	s.count("api_"+k.Req.API, 1)
 	aborted := false
@@ -383,6 +390,8 @@ func judgeRun(s *stats, k *kase, origin *sim.Region, op *operator.Operator, e *e
 			fail("final-leader-differs", fmt.Sprintf("final leader is store %d, requested leader is store %d (final %q)", fl, e.leader, reg.String()), len(steps))
 			return
 		}
+	} else if e.followers[fl] && k.AmbiguousWorld {
+		s.count("skipped_ambiguous_follower_world_changed_during_build", 1)
 	} else if e.followers[fl] {
 		other := uint64(0)
 		for _, store := range sortedStores(e.roles) {
@@ -403,4 +412,13 @@ func judgeRun(s *stats, k *kase, origin *sim.Region, op *operator.Operator, e *e
 	}
 	s.count("final_states_judged", 1)
 	return
+}
+
+// familySuffix makes the violation key of a non-plain workload family distinct: a defect that only
+// shows under a changing world / a failing allocator / overlapping builds is another kind of history.
+func familySuffix(k *kase) string {
+	if k.Family == "" {
+		return ""
+	}
+	return ":" + k.Family
 }
